@@ -6,6 +6,7 @@ pub mod votes;
 pub mod pool_driver;
 pub mod pool_model;
 pub mod shreds;
+pub mod torsion;
 pub mod world;
 
 use std::sync::OnceLock;
